@@ -1286,9 +1286,9 @@ class G05(object):
                     "(define (gen%s%s) (define loc 5) (define v (call/cc (lambda (c) (set! %s c) 1))) (set! loc (+ loc v)) (list loc v))"
                     % (tag, formals, k),
                     "(gen%s%s)" % (tag, arg),
-                    "(churn%s %d)" % (tag, self.pick([100, 500, 1200])), "(churn%s %d)" % (tag, self.pick([50, 700])),
+                    "(churn%s %d)" % (tag, self.pick([100, 300, 600])), "(churn%s %d)" % (tag, self.pick([50, 300])),
                     "(if (< %s 2) (begin (set! %s (+ %s 1)) (%s (* 10 %s))) 'done)" % (n, n, n, k, n),
-                    "(churn%s 400)" % tag,
+                    "(churn%s 200)" % tag,
                     "(if (< %s 3) (begin (set! %s (+ %s 1)) (%s (* 10 %s))) 'done)" % (n, n, n, k, n)]
         if r in (18, 19):  # captured deep inside a non-tail recursion (the VM stack has grown beyond its initial
             # 256 slots from depth 42), re-entered from later top-level forms after that evaluation has ended,
